@@ -252,8 +252,6 @@ def eigen(X, P, NSIG=None, method='music', threshold=None, NFFT=default_NFFT,
     NP = N - P
 
     assert 2 * NP > P-1, 'decrease the second argument'
-    if NP > 100:
-        NP = 100
 
     FB = np.zeros((2*NP, P), dtype=complex)
     #FB = numpy.zeros((MAXU, IP), dtype=complex)
